@@ -14,3 +14,5 @@ import LettreVerif.Props.C02
 #print axioms LV.C02.sixty_recipients_folded
 #print axioms LV.C02.name_start_not_folded_witness
 #print axioms LV.C02.text_value_folded
+#print axioms LV.C02.value_wf_every_string
+#print axioms LV.C02.mailbox_header_wf_every_name
